@@ -11,7 +11,7 @@ RULE = ('netstring: every chunking of short frame sequences (stream <= 11 bytes)
         'boundary code points, control characters, characters needing escapes, ill-formed UTF-8; integers to 2^53 and the 64-bit limits, '
         '-0, subnormals, extreme magnitudes; empty containers; nesting to 64; shuffled unique keys) round-tripped through the real '
         'JsonEncode/JsonDecode, hostile documents (mutated valid documents, number/escape/surrogate edge cases, BOMs, random bytes) through '
-        'JsonDecode and JsonRpc::DecodeMessage, nesting 1..20000 on a 256 KiB coroutine stack. '
+        'JsonDecode and JsonRpc::DecodeMessage, nesting 1..20000 (both sides of the source\'s limit 128) on a 256 KiB coroutine stack. '
         'non-trivial = at least one frame/value/error observed; distinct = distinct script text')
 TRUSTED = ['model: coq/Codec/NsModel.v (transcription of lib/base/netstring.cpp:26-101,129-277,331-334 and the StreamReadContext '
            'handling of lib/base/stream.cpp:111-144 with what FillFromStream delivers as an input), coq/Codec/JsModel.v (transcription of '
@@ -370,12 +370,21 @@ def gen_json_hostile(rnd, tier, cases):
     for i in range(800 if big else 150):
         doc = bytes(rnd.choice(b'[]{}:,"\\u0123456789abcdefnrtl.-+eE \xc3\xa4\xff\x00') for _ in range(rnd.randint(1, 30)))
         cases.append({'lines': ['js_dec ' + hx(doc)], 'tags': {'family': 'js-random-bytes'}})
-    # nesting: within 64 must decode; beyond that anything but a crash (one op per case: a crash ends the process)
+    # nesting: up to the limit of the source (128) the document is decoded, beyond it it is rejected, never a crash.
+    # (attempts beyond 64 are isolated in a forked child by the harness: an overflow of a malloc'ed coroutine stack
+    # corrupts the heap before it kills the process)
     for n in (1, 2, 63, 64):
         for kind in 'ao':
             cases.append({'lines': ['js_deep n=%d close=1 kind=%s mode=%s' % (n, kind, m) for m in ('plain', 'co')] +
                                    ['js_deep n=%d close=0 kind=%s mode=co' % (n, kind)], 'tags': {'family': 'js-nesting'}})
-    for n, kind, mode, close in ((65, 'a', 'co', 1), (1000, 'a', 'co', 1), (1000, 'o', 'co', 1), (3000, 'a', 'plain', 1), (2000, 'a', 'co', 0),
+    for n in (65, 100, 127, 128, 129, 130, 256):
+        for kind in 'ao':
+            cases.append({'lines': ['js_deep n=%d close=1 kind=%s mode=%s' % (n, kind, rnd.choice(('plain', 'co')))], 'tags': {'family': 'js-nesting-limit'}})
+    # mixed nesting right at the limit through js_dec / js_msg
+    for n in (127, 128, 129):
+        doc = b''.join((b'[' if i % 2 else b'{"k":') for i in range(n)) + b'1' + b''.join((b']' if i % 2 else b'}') for i in reversed(range(n)))
+        cases.append({'lines': ['js_dec ' + hx(doc), 'js_msg ' + hx(doc)], 'tags': {'family': 'js-nesting-limit'}})
+    for n, kind, mode, close in ((1000, 'a', 'co', 1), (1000, 'o', 'co', 1), (3000, 'a', 'plain', 1), (2000, 'a', 'co', 0),
                                  (5000, 'a', 'co', 1), (20000, 'a', 'co', 1), (20000, 'o', 'co', 1)):
         cases.append({'lines': ['js_deep n=%d close=%d kind=%s mode=%s' % (n, close, kind, mode)], 'tags': {'family': 'js-nesting-deep'}})
 
@@ -388,22 +397,6 @@ def generate(seed, tier):
     gen_json_rt(rnd, tier, cases)
     gen_json_hostile(rnd, tier, cases)
     return cases
-
-
-_DEEP = re.compile(r'^js_deep n=(\d+) ')
-
-
-def canon(lines):
-    """nesting beyond 64 may be decoded or rejected (a depth limit would be a legitimate fix): only 'no crash' is required,
-    and that is the oracle's business (the harness isolates such an attempt in a forked child and prints 'crash')"""
-    out = []
-    for l in lines:
-        m = _DEEP.match(l)
-        if m and int(m.group(1)) > 64:
-            out.append('js_deep-beyond-64')
-        else:
-            out.append(l)
-    return out
 
 
 def nontrivial(case, impl_lines):
